@@ -49,6 +49,19 @@ type HeldLock struct {
 	Read  bool
 }
 
+type heapWrite struct {
+	key, ref string
+}
+
+func (st *State) wrote(key, ref string) {
+	for _, w := range st.writes {
+		if w.key == key && w.ref == ref {
+			return
+		}
+	}
+	st.writes = append(st.writes, heapWrite{key, ref})
+}
+
 type localCell struct {
 	key string // leaf key
 	ref string
@@ -104,6 +117,7 @@ type State struct {
 	fresh   []string // refs allocated on this path
 	subFresh int     // how many entries of fresh are sub-object terms (not numbered)
 	locals  []localCell // function-local cells (Alloc) that have not escaped
+	writes  []heapWrite   // heap writes on this path (for the frame check)
 	cells   map[string]Val // ref -> current value of a non-escaped local cell
 	snaps   map[string]map[string]string // lock term -> heap at its latest acquisition
 	calls   map[string]callRecord
@@ -128,6 +142,7 @@ func (st *State) clone() *State {
 		fresh:   append([]string(nil), st.fresh...),
 		subFresh: st.subFresh,
 		locals:  append([]localCell(nil), st.locals...),
+		writes:  append([]heapWrite(nil), st.writes...),
 		cells:   make(map[string]Val, len(st.cells)),
 		snaps:   make(map[string]map[string]string, len(st.snaps)),
 		calls:   make(map[string]callRecord, len(st.calls)),
